@@ -76,7 +76,7 @@ func sameEntries(a, b []database.Command) bool {
 func TestC09_Notebook(t *testing.T) {
 	needWtf(t)
 	rec := stat.For("C09")
-	rec.Rule("fault enumeration. (1) notebook: generated (notebook state built by real saves, write op in {wtf save, wtf save-pipeline; new entry or replace}) pairs; the op runs in a child whose RLIMIT_FSIZE stops every file write after k bytes, for EVERY k in [0, len(new file)] when that is <= 400 bytes, else boundary points plus 24 drawn ones. Oracle: notebook bytes afterwards == old or == new (absent == old when it was absent); if != new no success line was printed; the notebook loads and still holds every old entry. (2) history: same for the history update made by a search; the file must load with exactly the old entries or the old entries plus the new search. Non-trivial = 0 < k < len(new) and old state non-empty.")
+	rec.Rule("fault enumeration. (1) notebook: generated (notebook state built by real saves, write op in {wtf save, wtf save-pipeline; new entry or replace}) pairs; the op runs in a child whose RLIMIT_FSIZE stops every file write after k bytes, for EVERY k in [0, len(new file)] when that is <= 400 bytes, else boundary points plus 24 drawn ones. Oracle: notebook bytes afterwards == old or == new (absent == old when it was absent); if != new no success line was printed; the notebook loads and still holds every old entry; an ordinary save issued afterwards in the same HOME produces exactly what it produces from that state without the event. (2) history: same for the history update made by a search; the file must load with exactly the old entries or the old entries plus the new search. Non-trivial = 0 < k < len(new) and old state non-empty.")
 	exhaustivePairs, sampledPairs := 0, 0
 	defer func() {
 		r := stat.For("C09")
@@ -119,6 +119,9 @@ func TestC09_Notebook(t *testing.T) {
 			cmdStr = oldCmds[rapid.IntRange(0, len(oldCmds)-1).Draw(t, "which")]
 		}
 		desc, _ := argvString(t, "desc")
+		if rapid.IntRange(0, 2).Draw(t, "big-entry") == 0 {
+			desc += " " + strings.Repeat("long description text ", rapid.IntRange(5, 40).Draw(t, "big-rep"))
+		}
 		okLine := "Command saved successfully!"
 		if rapid.IntRange(0, 2).Draw(t, "pipeline") == 0 {
 			args = []string{"save-pipeline", "--keywords=" + flagValue(t, "kw"), "--", "name", cmdStr}
@@ -133,6 +136,13 @@ func TestC09_Notebook(t *testing.T) {
 			t.Fatalf("harness: unfaulted op failed: %s", r0.Stdout)
 		}
 		newBytes := readOrNil(ref.Notebook())
+		// what a later, ordinary save must produce from either surviving state
+		followArgs := []string{"save", "--", "follow-up", "short"}
+		refOld := copyHomeRaw(dir, base)
+		runWtf(refOld, dir, followArgs)
+		followOnOld := readOrNil(refOld.Notebook())
+		runWtf(ref, dir, followArgs)
+		followOnNew := readOrNil(ref.Notebook())
 		ks, exhaustive := stopPoints(t, len(old), len(newBytes))
 		if exhaustive {
 			exhaustivePairs++
@@ -178,6 +188,20 @@ func TestC09_Notebook(t *testing.T) {
 						o.msg = "notebook no longer loads: " + clip(err.Error())
 					} else if o.st == "old" && !sameEntries(db.Commands, oldEntries) {
 						o.msg = "earlier entries changed"
+					}
+				}
+				if o.msg == "" {
+					// the event must not poison later saves either
+					r2 := runWtf(h, dir, followArgs)
+					got2 := readOrNil(h.Notebook())
+					want2 := followOnOld
+					if o.st == "new" {
+						want2 = followOnNew
+					}
+					if !strings.Contains(r2.Stdout, "Command saved successfully!") {
+						o.msg = "an ordinary save after the event failed: " + clip(r2.Stdout)
+					} else if !bytes.Equal(got2, want2) {
+						o.msg = fmt.Sprintf("an ordinary save after the event left %d bytes, expected the %d bytes the same save produces from the %s state: %+q", len(got2), len(want2), o.st, clip(string(got2)))
 					}
 				}
 				results[i] = o
@@ -289,6 +313,17 @@ func TestC09_History(t *testing.T) {
 					o.msg = fmt.Sprintf("history file no longer loads (%v): %+q", err, clip(string(readOrNil(h.History()))))
 				default:
 					o.st, o.msg = histRelation(oldEntries, got, q)
+				}
+				if o.msg == "" {
+					// a later, ordinary search must simply append to whichever state survived
+					fq := "follow up query"
+					runWtf(h, dir, []string{"--no-color", "-d", dbp, "--", fq})
+					got2, err2 := loadHist(h.History())
+					if err2 != nil {
+						o.msg = fmt.Sprintf("after a later ordinary search the history no longer loads: %v", err2)
+					} else if _, m := histRelation(got, got2, fq); m != "" || len(got2) != len(got)+1 {
+						o.msg = fmt.Sprintf("a later ordinary search did not simply append to the surviving history (%d -> %d entries) %s", len(got), len(got2), m)
+					}
 				}
 				results[i] = o
 			}(i, k)
